@@ -113,8 +113,12 @@ func (w *world) store(id uint64) *storeDesc {
 
 // kase is one complete input: a cluster and a region (compact layout, see sim.ParseLayout).
 type kase struct {
-	World  *world `json:"world"`
+	World  *world `json:"world"` // the cluster as it is at the time of the check
 	Region string `json:"region"`
+	// the history that led there (one long-lived checker): the initial cluster and the rounds so far
+	Initial *world      `json:"initial_world,omitempty"`
+	History []roundDesc `json:"history,omitempty"`
+	Round   int         `json:"round"`
 }
 
 // ---- generators -------------------------------------------------------------------------------------------
@@ -339,7 +343,7 @@ func genRules(rng *rand.Rand, w *world, nz int) []ruleDesc {
 const idBase = uint64(1) << 40 // region peer ids live far away from the mock allocator's 1,2,3,...
 
 // genRegion draws a region over the world's stores: peers, learners, leader, down / pending marks.
-func genRegion(rng *rand.Rand, w *world) []sim.PeerSpec {
+func genRegion(rng *rand.Rand, w *world, small bool) []sim.PeerSpec {
 	S := len(w.Stores)
 	maxN := w.MaxReplicas + 2
 	if maxN > S {
@@ -347,7 +351,13 @@ func genRegion(rng *rand.Rand, w *world) []sim.PeerSpec {
 	}
 	n := 1 + rng.Intn(maxN)
 	// bias towards regions around max-replicas
-	if rng.Intn(3) == 0 {
+	if small {
+		// a region that needs new peers under (almost) any rule
+		n = 1 + rng.Intn(2)
+		if n > S {
+			n = S
+		}
+	} else if rng.Intn(3) == 0 {
 		n = w.MaxReplicas + rng.Intn(3) - 1
 		if n < 1 {
 			n = 1
